@@ -29,7 +29,14 @@ def T(text, cls='fixed'):
 
 CURRENCY_ALIASES = ['avro', 'dollar', 'euro', 'kroner', 'lef', 'leva', 'tl', 'лв']       # configured alias words (config.json currency_alias)
 # names with letters whose lower-casing changes the byte length (İ), written in capitals so that every re-casing is the same name
-VAR_NAMES = ['zq', 'wv rate', 'mk total', 'İZMİR', 'BİTİŞ', 'ÖĞLE ARASI', 'ÇAY', 'İŞ GÜNÜ']
+VAR_NAMES = ['zq', 'wv rate', 'mk total', 'İZMİR', 'BİTİŞ', 'ÖĞLE ARASI', 'ÇAY', 'İŞ GÜNÜ',
+             'total sum', 'times visited', 'add on', 'toplam fiyat', 'minus side']          # ... and names with a word that is also a written operator
+# rules an application added with patterns whose literal words carry capitals: their connective words in every letter case
+APP_RULES = [('{NUMBER:part} OUT OF {NUMBER:total}', ['out', 'of']), ('{NUMBER:part} Per {NUMBER:total}', ['per']), ('{NUMBER:part} vErSuS {NUMBER:total}', ['versus']),
+             ('{NUMBER:part} ÜZERİNDEN {NUMBER:total}', ['ÜZERİNDEN'])]
+APP_RULE_OPS = ([{'op': 'new_calc', 'c': 2, 'seg': True}] +
+                [{'op': 'add_rule', 'c': 2, 'lang': lang_, 'patterns': [pat], 'spec': {'name': 'app%d' % k_, 'kind': 'encode', 'weights': {'part': 100.0, 'total': 1.0}}}
+                 for k_, (pat, _) in enumerate(APP_RULES) for lang_ in ('en',)])
 TR_DUR = ['gün', 'hafta', 'ay', 'yıl']
 
 
@@ -181,6 +188,38 @@ def value(slot):
     return v
 
 
+def app_rules(ctx, drv, cfg):
+    """the connective words of rules the application added (pattern words written with capitals) in every letter case"""
+    rng, res = ctx.rng, ctx.res
+    cases = []
+    for _ in range(12):
+        pat, words = rng.choice(APP_RULES)
+        x, y = rng.randint(1, 99), rng.randint(1, 99)
+        line = [T(str(x))] + [T(w, 'fixed' if 'İ' in w else 'conn') for w in words] + [T(str(y))]
+        if 'İ' in pat:
+            base = render(rng, [line], 'base')
+            cases.append((base, render(rng, [line], 'blanks'), 100.0 * x + y))
+        else:
+            base = render(rng, [line], 'base')
+            for m in ('case', 'all'):
+                cases.append((base, render(rng, [line], m), 100.0 * x + y))
+    cops = APP_RULE_OPS + mon.gh.config_ops(cfg, c=2, seg=False)
+    ops = cops + [{'op': 'execute', 'c': 2, 'lang': 'en', 'text': t} for b_, v_, _ in cases for t in (b_, v_)]
+    rs = drv.run(ops)[len(cops):]
+    for k, (base, var, want) in enumerate(cases):
+        bslot, vslot = mon.slot0(rs[2 * k]), mon.slot0(rs[2 * k + 1])
+        res.cases += 1
+        res.count('class:variant:case-of-application-rule-words')
+        res.distinct.add('app', base, var)
+        if mon.kind(bslot) == 'number' and mon.fval(bslot) == want and value(vslot) == value(bslot):
+            res.count('ok')
+        else:
+            res.violation('rewrite:case:application-rule-words', 'with the rule patterns %r added by the application, %r = %s and %r = %s (the rule gives %r)' % (
+                [p_ for p_, _ in APP_RULES], base, mon.describe(bslot), var, mon.describe(vslot), want),
+                {'config': cfg, 'lang': 'en', 'text': var, 'base': base,
+                 'ops': cops + [{'op': 'execute', 'c': 2, 'lang': 'en', 'text': base}, {'op': 'execute', 'c': 2, 'lang': 'en', 'text': var}]})
+
+
 def run_shard(ctx):
     rng = ctx.rng
     res = ctx.res
@@ -207,6 +246,7 @@ def run_shard(ctx):
                 items.append((lang, t))
                 meta.append(('variant:' + m, t, None))
         rs = mon.run_lines(drv, cfg, items)
+        app_rules(ctx, drv, cfg)
         i = 0
         while i < len(meta):
             kind, text, nvar = meta[i]
